@@ -61,7 +61,25 @@ all data is (n-1)/n * (pooled RDM without i) + a_i * x_i with a_i > 0 (any posit
 is non-decreasing in a >= 0 for every inner product W, so the inequality holds term by term; the check is kept as a guard
 (it catches sign errors / swapped bounds / non-positive weights in the pooling of the whitened methods).
 
-input_class = '<method>,<kind of data>[,nan][,<grouping kind>]' (see `_ic`).
+input_class = '<method>,<kind of data>[,<representation>][,nan][,<grouping kind>]' (see `_ic`, `_dim`).
+
+dimension sweeps (`_sweeps`, Bounded names 'C07/sweep-<dimension>/<oracle>'): the oracles above on inputs that vary along one
+further dimension each; the expected values stay what the statement says for the VALUES of the data (case keys in brackets)
+* dtype      [dtype] data RDMs handed over as int64 / int32 / int16 / uint8 / float32 (float32: tolerance 1e-5); plus
+             C07/dtype-promotion (metamorphic, all five measures): typed data get the bounds of the same values as float64
+* unit       [unit] all values times 10^u, u = -26 .. +12 (squared MEG units are 1e-26): literal oracles, invariance, missing
+* containers [label_container, vals_container, matrix_input, decoys, label_style] descriptors and fold values as list /
+             tuple / ndarray; group labels float, negative, bool, numeric strings, mixed-length strings, numpy scalars; data as
+             square matrices; other descriptors (with other groupings) before and after the named one
+* sizes      one-entry RDMs (n_cond 2, cosine), 30 / 60 RDMs in unbalanced interleaved groups, (20, 9) .. (6, 20) for optimal
+* calls      C07/calls: f(B), f(A), f(B), f(A) on the same objects: repeated calls identical, each stack its stated value
+             (a cache keyed by shape would show), inputs / fold sets unchanged, a pooled RDM held by the caller unchanged
+* order      C07/permutation: order of the RDMs in the stack and order in which the conditions are listed do not enter
+* environment C07/new-interpreter: a child interpreter with another PYTHONHASHSEED gets the same bounds (string labels)
+* competitors (in `_candidates`, all optimal cases): every basis element and its complement, leave-one-out maximisers,
+             maximisers of the other measures, median, convex combinations of the data, 1e-6 / 1e-8 sd neighbours
+pending triage (registrations behind `if False:`): integer data whose squares leave the integer type (cosine, cosine_cov),
+float32 data whose squares leave the float32 range (cosine, corr, cosine_cov, corr_cov) -- pool_rdm squares in the input type.
 
 NOT covered by this tier: all-real-values optimality (Lean lemma `pooled_optimal`, engine B pooling contract); candidates
 outside the enumerated / sampled sets for > 6 entries; lower <= upper for rho-a (not claimed by the property) and for
@@ -99,6 +117,7 @@ OB_RES = 'C07/Result.noise_ceiling/oracle/literal-recomputation'
 OB_CALL = 'C07/noise_ceiling/oracle/call-sequence-and-inputs-unchanged'
 OB_ENV = 'C07/noise_ceiling/oracle/same-result-in-a-new-interpreter'
 OB_PERM = 'C07/boot_noise_ceiling/oracle/order-of-rdms-and-conditions-irrelevant'
+OB_TYPE = 'C07/noise_ceiling/oracle/typed-data-like-the-same-values-as-float64'
 
 INT_DTYPES = ('int64', 'int32', 'int16', 'uint8')
 TOL_F32 = 1e-5      # data handed over as float32: the library may compute in single precision (eps 6e-8, mild conditioning)
@@ -938,6 +957,24 @@ def orc_new_interpreter(case):
     return None
 
 
+@oracle('C07/dtype-promotion')
+def orc_promotion(case):
+    """metamorphic (all five measures, the whitened ones have no literal spec here): the bounds are a function of the VALUES of
+    the data RDMs, so integer-typed / float32 data get the bounds of the same values held as float64"""
+    method = case['method']
+    vecs = _data(case)
+    plain = dict(case, dtype=None)
+    if case.get('folds'):
+        r_t, r_f, fn = _cv(vecs, case, method), _cv(vecs, plain, method), 'cv_noise_ceiling'
+    else:
+        labels = case.get('labels')
+        r_t, r_f, fn = _boot(vecs, method, labels, case), _boot(vecs, method, labels, plain), 'boot_noise_ceiling'
+    for nm, x, y in (('lower', r_t[0], r_f[0]), ('upper', r_t[1], r_f[1])):
+        if not (np.isfinite(x) and np.isfinite(y)) or abs(x - y) > _tol(case):
+            return f"{fn} {nm} bound {x:.12g} for {case['dtype']} data, {y:.12g} for the same values as float64"
+    return None
+
+
 def _permute_conds(vecs, nc, perm):
     """the same RDMs with the conditions listed in the order perm: new entry (a, b) = old entry (perm[a], perm[b])"""
     idx = {}
@@ -1314,7 +1351,7 @@ def tier_c(run, thorough):
 # =====================================================================================================
 _OB_OF = {'C07/optimal': OB_OPT, 'C07/loo': OB_LOO, 'C07/upper-grouped': OB_UPG, 'C07/ordering': OB_ORD, 'C07/invariance': OB_INV,
           'C07/missing': OB_MISS, 'C07/cv': OB_CV, 'C07/result': OB_RES, 'C07/calls': OB_CALL, 'C07/new-interpreter': OB_ENV,
-          'C07/permutation': OB_PERM}
+          'C07/permutation': OB_PERM, 'C07/dtype-promotion': OB_TYPE}
 _FN_OF = {'C07/optimal': 'pool_rdm', 'C07/cv': 'cv_noise_ceiling', 'C07/result': 'eval_fixed', 'C07/missing': '_nan_mean'}
 
 
@@ -1351,7 +1388,8 @@ def _sweeps(run, thorough, bds):
     sw = _Sweep(run, bds, 'dtype',
                 'data RDMs handed over as int64 / int32 / int16 / uint8 (integer data, squares inside the type) and float32 (tolerance '
                 '1e-5), also as square matrices; n_rdm 3..5, n_cond 4..6, %d seeds; oracles optimal / loo / upper-grouped / ordering / '
-                'cv / result / missing (float32) / calls / permutation; float32 also in units 1e-12, 1e+12'
+                'cv / result / missing (float32) / calls / permutation / dtype-promotion (all 5 methods: same bounds as for the same values '
+                'as float64); float32 also in units 1e-12, 1e+12'
                 % (3 if thorough else 1))
     for seed in range(3 if thorough else 1):
         for dk, dt in enumerate(INT_DTYPES + ('float32',)):
@@ -1403,6 +1441,13 @@ def _sweeps(run, thorough, bds):
                     if thorough or (mk + dk) % 2:
                         case = dict(base, seed=seed * 10 + 3, n_rdm=4, n_cond=6, kind=kind, method=method, folds=folds46)
                         sw.add(orc_calls, case, f'{method},{cls},cv' + _dim(case), 'cv_noise_ceiling')
+                    for labels in (None, grp5):
+                        case = dict(base, seed=seed * 10 + 4, n_rdm=5, n_cond=5 + mk % 2, kind=kind, method=method)
+                        if labels is not None:
+                            case['labels'] = labels
+                        sw.add(orc_promotion, case, f'{method},{cls},boot' + _dim(case))
+                    case = dict(base, seed=seed * 10 + 5, n_rdm=4, n_cond=6, kind=kind, method=method, folds=folds46)
+                    sw.add(orc_promotion, case, f'{method},{cls},cv' + _dim(case), 'cv_noise_ceiling')
             if not ints:
                 for method in ALL_METHODS:
                     cls = 'whitened' if method.endswith('_cov') else 'plain'
@@ -1415,28 +1460,37 @@ def _sweeps(run, thorough, bds):
                             sw.add(orc_loo, case, _ic(method, case, list(range(4))))
                         else:
                             sw.add(orc_ordering, case, _ic(method, case))
-    for case_list in sw.items.values():      # the normal classes hold integer data whose squares fit (see pending triage below)
+    for case_list in sw.items.values():      # the classes above hold integer data whose squares fit the type
         for _, case, _, _ in case_list:
             assert case['dtype'] == 'float32' or _square_fits(case), case
-    if False:  # pending triage: integer-typed data whose SQUARES leave the integer type (cosine pooling squares in the input type)
-        for dt, nlev in (('uint8', 40), ('uint8', 250), ('int16', 400), ('int16', 30000), ('int32', 70000), ('int64', 2 ** 32)):
-            for method in ('cosine', 'corr', 'rho-a'):
+    # large values: integer data whose SQUARES leave the integer type, float32 data whose squares leave the float32 range
+    # (unit 1e-26: underflow, 1e+20: overflow).  The methods for which rsatoolbox copes are checked here, the others wait.
+    big_ints = (('uint8', 40), ('uint8', 250), ('int16', 400), ('int16', 30000), ('int32', 70000), ('int64', 2 ** 32))
+    for dt, nlev in big_ints:
+        for method in ('corr', 'rho-a', 'corr_cov'):
+            case = dict(dtype=dt, nlev=nlev, seed=5, n_rdm=4, n_cond=5, kind='int', method=method)
+            sw.add(orc_promotion, case, f'{method},int-dtype,large-values')
+            if method != 'corr_cov':
+                sw.add(orc_loo, case, f'{method},int-dtype,large-values')
+    for unit in (-26, 20):
+        case = dict(dtype='float32', unit=unit, seed=8, n_rdm=4, n_cond=5, kind='pos', method='rho-a')
+        sw.add(orc_promotion, case, 'rho-a,float32,large-unit')
+        sw.add(orc_loo, case, 'rho-a,float32,large-unit')
+    if False:  # pending triage: cosine,int-dtype,square-overflow / cosine_cov,int-dtype,square-overflow
+        for dt, nlev in big_ints:
+            for method in ('cosine', 'cosine_cov'):
                 case = dict(dtype=dt, nlev=nlev, seed=5, n_rdm=4, n_cond=5, kind='int', method=method)
-                sw.add(orc_loo, case, f'{method},int-dtype,square-overflow')
-                sw.add(orc_optimal, case, f'{method},int-dtype,square-overflow')
-            for method in ('cosine_cov', 'corr_cov'):
-                case = dict(dtype=dt, nlev=nlev, seed=5, n_rdm=4, n_cond=5, kind='int', method=method)
-                sw.add(orc_calls, dict(case, dtype=dt), f'{method},int-dtype,square-overflow')
-                sw.add(orc_ordering, case, f'{method},int-dtype,square-overflow')
-    if False:  # pending triage: float32 data in units whose SQUARES leave the float32 range (1e-26: underflow, 1e+20: overflow)
+                sw.add(orc_promotion, case, f'{method},int-dtype,square-overflow')
+                if method == 'cosine':
+                    sw.add(orc_loo, case, f'{method},int-dtype,square-overflow')
+                    sw.add(orc_optimal, case, f'{method},int-dtype,square-overflow')
+    if False:  # pending triage: <cosine|corr|cosine_cov|corr_cov>,float32,square-outside-float32-range
         for unit in (-26, 20):
-            for method in ALL_METHODS:
+            for method in ORD_METHODS:
                 case = dict(dtype='float32', unit=unit, seed=8, n_rdm=4, n_cond=5, kind='pos', method=method)
+                sw.add(orc_promotion, case, f'{method},float32,square-outside-float32-range')
                 if method in OPT_METHODS:
                     sw.add(orc_loo, case, f'{method},float32,square-outside-float32-range')
-                else:
-                    sw.add(orc_ordering, case, f'{method},float32,square-outside-float32-range')
-                    sw.add(orc_invariance, dict(case, dtype=None, decades=0), f'{method},float32,square-outside-float32-range')
     sw.done()
 
     # ---- units: the same RDMs measured in a unit 1e-26 .. 1e+12 times the usual one -------------------------------------------
